@@ -188,6 +188,9 @@ var UserFns = []userFn{
 	{"-", KInt, 1, KInt, IntToInt},    // unary, next to the built-in binary minus
 	{"!", KBool, 2, KBool, Bool2},     // binary, next to the built-in unary not
 	{"sub2", KInt, 1, KInt, IntToInt}, // unary, next to the user's binary sub2
+	// function names are case sensitive
+	{"Twice", KInt, 1, KInt, IntToInt},
+	{"ABS", KFloat, 1, KFloat, FloatToFloat}, // not the built-in abs
 }
 
 // NewCtx returns a context with the user functions registered.
@@ -350,6 +353,8 @@ func userEval(f userFn) func(a, b Val) Val {
 			return Val{K: KBool, B: fn(a.B, b.B)}
 		case func(*string) *string:
 			return Val{K: KString, S: fn(a.S)}
+		case func(float64) float64:
+			return Val{K: KFloat, F: fn(a.F)}
 		}
 		panic("harness: user function type")
 	}
